@@ -35,12 +35,14 @@ def run(ctx):
             vlib.violation(ctx, "generated-" + profile + "-" + c["pkg"], dict(semlib.replay_of(cmdp, c), kind="the emitted file does not parse, or the definitions Coq sees depend on comment/log/flag text, or the parsed nesting differs"), True)
             found = True
     # string literals with quotes, newlines, escapes, raw strings: rejected, or read back by Coq as the same bytes
-    cmdc, casesc, stc = semlib.run_semdrv(ctx, "catalogue", ctx.seed, 0, extra="-only string_")
-    evals += stc["cases"]
-    ctx.cov["string_literal_items"] = {c["pkg"]: (c["verdict"] or "mismatch") for c in casesc}
-    for c in [c for c in casesc if c["mismatches"]][:2]:
-        vlib.violation(ctx, "catalogue-" + c["pkg"], dict(semlib.replay_of(cmdc, c), kind="a string literal is neither rejected nor read back by Coq as the bytes Go has"), True)
-        found = True
+    ctx.cov["string_literal_items"] = {}
+    for sel in ("string_", "field_value_"):   # string literals; operators as struct field values (::= binds tighter than comparisons)
+        cmdc, casesc, stc = semlib.run_semdrv(ctx, "catalogue", ctx.seed, 0, extra="-only " + sel)
+        evals += stc["cases"]
+        ctx.cov["string_literal_items"].update({c["pkg"]: (c["verdict"] or "mismatch") for c in casesc})
+        for c in [c for c in casesc if c["mismatches"]][:2]:
+            vlib.violation(ctx, "catalogue-" + c["pkg"], dict(semlib.replay_of(cmdc, c), kind="a string literal is neither rejected nor read back by Coq as the bytes Go has, or the nesting Coq reads differs from Go's"), True)
+            found = True
     ctx.cov.update({
         "evaluations": evals, "distinct_nontrivial": evals,
         "rule": "lexical: a generated package whose statements, functions, structs and constants carry comments drawn from 25 adversarial texts (comment delimiters alone, "
